@@ -832,3 +832,101 @@ def gen_chain_model(rng):
                 step.append(["del", rng.randrange(64)])
         steps.append(step)
     return s, steps
+
+
+# ------------------------------------------------------------------ option appended to an option record (OptionRecord.append_option)
+
+# canonical record kind -> options that pharmpy itself appends to such a record ((key, value) pairs)
+APPEND_OPTS = {
+    "INPUT": [("WT", None), ("AGE", None), ("OCC", "DROP"), ("SEX", None)],
+    "SUBROUTINES": [("TOL", "9"), ("TRANS1", None), ("ADVAN6", None), ("ATOL", "6")],
+    "TABLE": [("CWRES", None), ("IPRED", None), ("NOTITLE", None), ("RFORMAT", "'(1PE16.9)'")],
+    "DATA": [("IGNORE", "@"), ("WIDE", None), ("NULL", "0")],
+    "ESTIMATION": [("MSFO", "msf1"), ("NOABORT", None), ("PRINT", "5"), ("SEED", "1234")],
+    "MODEL": [("COMPARTMENT", "(PERI2)"), ("NPARAMETERS", "3")],
+    "SIZES": [("LTV", "70"), ("PDT", "-60"), ("MAXFCN", "1000")],
+    "COVARIANCE": [("UNCONDITIONAL", None), ("PRINT", "E"), ("TOL", "9")],
+    "ETAS": [("MAXETAS", "3")],
+}
+
+_OPT_BODIES = {
+    "INPUT": (["$INPUT", "$INP", "$input", "$INPT"], COLS),
+    "SUBROUTINES": (["$SUBROUTINES", "$SUBS", "$SUB", "$subr"], ["ADVAN1", "TRANS2", "ADVAN=ADVAN3", "TRANS=TRANS4", "OTHER=x.f90"]),
+    "TABLE": (["$TABLE", "$TAB"], COLS[:6] + ["PRED", "NOPRINT", "ONEHEADER", "NOAPPEND", "FILE=sdtab1", "FORMAT=s1PE12.5", "FIRSTONLY"]),
+    "DATA": (["$DATA", "$DAT", "$INFILE"], ["NOWIDE", "CHECKOUT", "RECORDS=10", "REWIND", "LRECL=80", "ACCEPT=(DV.NE.0)"]),
+    "ESTIMATION": (["$ESTIMATION", "$EST", "$ESTIM", "$estimation"], ["METHOD=1", "METH=COND", "INTER", "MAXEVAL=9999", "POSTHOC", "SIGDIGITS=3", "LAPLACE",
+                                                                      "FILE=psn.ext", "NITER=10"]),
+    "MODEL": (["$MODEL", "$MOD"], ["COMP=(CENTRAL DEFDOSE)", "COMP=(DEPOT)", "NCOMP=2"]),
+    "SIZES": (["$SIZES", "$SIZ"], ["LTH=50", "PD=-30", "LVR=35", "PC=40", "LIM1=2000"]),
+    "COVARIANCE": (["$COVARIANCE", "$COV", "$COVR"], ["MATRIX=S", "PRECOND=1", "OMITTED"]),
+    "ETAS": (["$ETAS"], ["FILE=run1_input.phi"]),
+}
+
+_OPT_NEIGHBOURS_BEFORE = ["$PROBLEM trailing comments\n", ";; head\n$PROBLEM p ; title; part\n", "$PROB x\n$ABBR DERIV2=NO ; keep\n"]
+_OPT_NEIGHBOURS_AFTER = ["$PK\nCL = THETA(1)*EXP(ETA(1)) ; clearance\nV = THETA(2)\n", "$THETA (0, 0.005) ; TVCL\n$OMEGA 0.03 ; iiv\n",
+                         "$PRED\n\"FIRST\nY = THETA(1) + ETA(1) + EPS(1) ;pred\n", "  $WARNINGS NONE ;w\n", "$SIGMA 0.01"]
+
+
+def _eol_comment(rng):
+    return ";" + rng.choice(["", " dose", " observations", " one compartment", "; double", " $TABLE in comment", " x=1", "\t tab", " foce-i &", " é"])
+
+
+def gen_optedit(rng):
+    """A control stream with one option record built line by line, whose END is drawn from a list of layout classes
+    (option last / end-of-line comment + newline / comment without final newline / comment lines and blank lines after
+    the last option / trailing blanks / CR LF / continuation), plus the index of the option to append."""
+    kind = rng.choice(sorted(_OPT_BODIES))
+    raws, pool = _OPT_BODIES[kind]
+    nl = "\r\n" if rng.random() < 0.12 else "\n"
+    s = rng.choice(raws)
+    if kind == "DATA":
+        s += _ws(rng).replace("\x00", " ") + rng.choice(["pheno.dta", "'my data.csv'", "../d/x.csv", "DUMMYPATH"])
+    opts = rng.sample(pool, rng.randint(0 if kind == "DATA" else 1, min(len(pool), 6)))
+    nlines = rng.randint(1, 3)
+    per = [[] for _ in range(nlines)]
+    for o in opts:
+        per[rng.randrange(nlines)].append(o)
+    ending = rng.choice(["option", "comment-nl", "comment-nl", "comment-nl", "comment-eof", "comment-then-lines", "trailing-ws", "option-eof",
+                         "blank-lines", "comment-nl-ws-eof"])
+    for li, line in enumerate(per):
+        last = li == nlines - 1
+        for o in line:
+            s += rng.choice([" ", " ", "  ", "\t"]) + o
+        if not last:
+            if rng.random() < 0.4:
+                s += rng.choice([" ", "  ", ""]) + _eol_comment(rng)
+            s += nl + rng.choice(["", " ", "       ", "\t"])
+    tail_is_last = False
+    if ending == "option":
+        s += nl
+    elif ending == "comment-nl":
+        s += rng.choice([" ", "  ", "", "        "]) + _eol_comment(rng) + nl
+    elif ending == "comment-eof":
+        s += rng.choice([" ", ""]) + _eol_comment(rng)
+        tail_is_last = True
+    elif ending == "comment-then-lines":
+        s += " " + _eol_comment(rng) + nl
+        for _ in range(rng.randint(1, 3)):
+            s += rng.choice(["", "  "]) + rng.choice([_eol_comment(rng), "", _eol_comment(rng)]) + nl
+    elif ending == "trailing-ws":
+        s += rng.choice([" ", "  ", "\t"])
+        if rng.random() < 0.5:
+            s += nl
+        else:
+            tail_is_last = True
+    elif ending == "option-eof":
+        tail_is_last = True
+    elif ending == "blank-lines":
+        s += nl + rng.choice(["", " "]) + nl
+    else:   # comment, newline, then blanks up to the end of the file
+        s += " " + _eol_comment(rng) + nl + rng.choice([" ", "   "])
+        tail_is_last = True
+    before = rng.choice(_OPT_NEIGHBOURS_BEFORE)
+    if kind == "SIZES" and rng.random() < 0.5:
+        text = (s if not tail_is_last else s + "\n") + before
+        tail_is_last = False
+        after = rng.choice(_OPT_NEIGHBOURS_AFTER)
+        text += after
+    else:
+        text = before + s + ("" if tail_is_last else rng.choice(_OPT_NEIGHBOURS_AFTER))
+    return text, kind, ending
